@@ -494,6 +494,7 @@ def rule_null_space(repo: Repo, rep: Report) -> int:
         rep.add("VERIFIED-RETURN", fi, "compute_null_space_matrix evaluated on sample generator matrices", est, edetail, node=enode or fi.node)
         lint_literal_fallback(rep, fi, "G2")
         li = repo.func(f"{ENC}/ldpc_code.py", "LDPCCodeEncoder.get_generator_matrix")
+        _LDPC_FUNCS.update({nm: f.node for nm, f in repo.func("kaira/models/fec/utils.py", "row_reduction").module.functions.items()})
         return 2 + ldpc_generator_rule(rep, li)
     n = verified_return_rule(rep, "VERIFIED-RETURN", fi, "matrix", "null", {"_gf2_row_reduce"})
     lint_literal_fallback(rep, fi, "G2")
@@ -541,12 +542,67 @@ def rule_null_space(repo: Repo, rep: Report) -> int:
         rep.note("compute_null_space_matrix has no exact elimination helper on this tree")
     # LDPC generator: null space of H via [H^T | I], cut at the rank
     li = repo.func(f"{ENC}/ldpc_code.py", "LDPCCodeEncoder.get_generator_matrix")
+    _LDPC_FUNCS.update({nm: f.node for nm, f in repo.func("kaira/models/fec/utils.py", "row_reduction").module.functions.items()})
     n += ldpc_generator_rule(rep, li)
     return n
 
 
+LDPC_SAMPLES = (
+    [[1, 1, 0, 1, 0, 0], [0, 1, 1, 0, 1, 0], [1, 0, 0, 0, 1, 1]],
+    [[1, 1, 0, 1, 0, 0], [0, 1, 1, 0, 1, 0], [1, 0, 0, 0, 1, 1], [1, 0, 1, 1, 1, 0]],  # row 3 = row 0 + row 1
+    [[1, 1, 0, 1, 0, 0], [1, 1, 0, 1, 0, 0], [0, 1, 1, 0, 1, 0], [1, 0, 0, 0, 1, 1]],  # a repeated check in the middle
+    [[0, 1, 1, 0, 1], [0, 0, 1, 1, 1]],  # column 0 is free
+    [[1, 1, 1, 1, 1, 1, 1]],
+    [[1, 0, 1, 0, 1, 0, 1], [0, 1, 1, 0, 0, 1, 1], [0, 0, 0, 1, 1, 1, 1]],
+    [[1, 1, 0], [0, 1, 1], [1, 0, 1]],  # rank 2 of 3 rows: the repetition code
+)
+
+
+def ldpc_generator_evaluated(li: FuncInfo):
+    """LDPCCodeEncoder.get_generator_matrix evaluated (row_reduction and the module helpers followed, own arithmetic) on
+    seven parity-check matrices, three of them with linearly dependent rows in different places: the result must have
+    n - rank(H) rows, full row rank, and G H^T = 0 (its row space is the null space of H).
+    Returns (status, detail) or (None, reason)."""
+    from .. import gf2
+    from ..constfold import Unfoldable
+    from ..frag import FragRaise, FragReturn, run_fragment
+
+    funcs = {nm: f.node for nm, f in li.module.functions.items()}
+    hparam = [p_ for p_ in li.params if p_ not in ("self", "cls")]
+    if len(hparam) != 1:
+        return None, "get_generator_matrix does not take exactly one matrix"
+    for H in LDPC_SAMPLES:
+        n = len(H[0])
+        rk = gf2.rank(gf2.rows_to_masks(H))
+        try:
+            run_fragment(li.body, {hparam[0]: [list(r) for r in H]}, {"self.device": "cpu"}, funcs=dict(_LDPC_FUNCS, **funcs), materialise=True, max_steps=3000000)
+            return None, "no value returned"
+        except FragReturn as ret:
+            G = ret.value
+        except FragRaise:
+            return VIOLATION, f"the parity-check matrix {H} is rejected"
+        except (Unfoldable, TypeError, IndexError, ValueError, KeyError) as exc:
+            return None, f"not evaluable ({exc})"
+        if not (isinstance(G, list) and all(isinstance(r, list) and len(r) == n and all(x in (0, 1, 0.0, 1.0, True, False) for x in r) for r in G)):
+            return None, f"the result for H = {H} is not a 0/1 matrix with {n} columns"
+        Gi = [[int(x) for x in r] for r in G]
+        bad = [(g, h) for g in Gi for h in H if sum(a * b for a, b in zip(g, h)) % 2]
+        if bad:
+            return VIOLATION, f"H = {H} (rank {rk}): the generator row {bad[0][0]} violates the check {bad[0][1]} - G H^T != 0, code words get non-zero syndromes"
+        if len(Gi) != n - rk or (Gi and gf2.rank(gf2.rows_to_masks(Gi)) != n - rk):
+            return VIOLATION, f"H = {H} has rank {rk}, so the code has dimension {n - rk}; the generator has {len(Gi)} row(s) of rank {gf2.rank(gf2.rows_to_masks(Gi)) if Gi else 0} - it does not span the null space of H"
+    return OK, f"G H^T = 0 with n - rank(H) independent rows on {len(LDPC_SAMPLES)} parity-check matrices (three with dependent rows: last, repeated in the middle, all dependent)"
+
+
+_LDPC_FUNCS: Dict[str, ast.AST] = {}
+
+
 def ldpc_generator_rule(rep: Report, li: FuncInfo) -> int:
     """G = rows[rank:] of the right block after row-reducing [H^T | I_n] over the first m columns."""
+    est_, ed_ = ldpc_generator_evaluated(li)
+    if est_ is not None:
+        rep.add("VERIFIED-RETURN", li, "LDPC generator evaluated on parity-check matrices with and without dependent rows", est_, ed_, node=li.node)
+        return 3
     hparam = li.params[-1] if li.params else "check_matrix_"
     transposed = None  # name of H^T
     dims: Dict[str, str] = {}
